@@ -283,7 +283,40 @@ def _main_check(ctx: Ctx) -> None:
                   construct="meta target range check is not `index < 0 or index >= len`", message=short(t_), file=fi.file, node=rc)
 
 
+def _parse_path(ctx: Ctx) -> None:
+    """ORDER (parse side): opening a file converts every mido track and every mido message, once, in order, into lists."""
+    from ..engines.typecase import TypeCase, events_matching
+    p = ctx.p
+    for q, what in (("MidiFile.parse_mido", "parse_mido_track"), ("MidiTrack.parse_mido_track", "parse_mido_message")):
+        f2 = p.func(q)
+        ctx.analysed(f2)
+        lp = next((n for n in walk_local(f2.node) if isinstance(n, ast.For)), None)
+        if lp is None:
+            # another spelling: a list comprehension / list(map(...)) over the source converts everything in order as well;
+            # a bare map(...) is reported by LAZY; anything else is not judged
+            whole = [e for e in walk_local(f2.node) if (isinstance(e, ast.ListComp) and len(e.generators) == 1 and not e.generators[0].ifs
+                                                       and any(isinstance(c, ast.Call) and call_method(c)[1] == what for c in ast.walk(e.elt)))
+                     or (isinstance(e, ast.Call) and isinstance(e.func, ast.Name) and e.func.id == "list" and e.args and isinstance(e.args[0], ast.Call)
+                         and isinstance(e.args[0].func, ast.Name) and e.args[0].func.id == "map" and what in src(e.args[0]))]
+            if whole:
+                ctx.ok("ORDER", f"{q}: converts every element, in order, exactly once, into a list (comprehension form)")
+            else:
+                ctx.undetermined("ORDER", f"{q}: conversion of every element", "no loop / comprehension over the source: idiom not judged")
+            continue
+        ok = True
+        if ok:
+            tc = TypeCase(p, f2, set(), None)
+            exits = tc.run_body(lp.body)
+            rng = events_matching(exits, lambda e: e[0] == "append")
+            calls = [c for c in ast.walk(lp) if isinstance(c, ast.Call) and call_method(c)[1] == what]
+            ok = rng == (1, 1) and {k for k, _ in exits} == {"end"} and bool(calls) and isinstance(lp.iter, (ast.Name, ast.Attribute))
+        ctx.check(ok, "ORDER", f"{q}: converts every element, in order, exactly once, into a list", function=q,
+                  construct="parsing does not convert every element exactly once in order into a list",
+                  message="tracks / messages of the file would be missing, repeated, reordered or only iterable once", file=f2.file, node=f2.node)
+
+
 def check(ctx: Ctx) -> None:
     _main_check(ctx)
+    _parse_path(ctx)
     from .common import view_deps
     view_deps(ctx)
